@@ -358,6 +358,25 @@ func lkRunE2E(c lkCase) []Step {
 			}
 		}
 	}
+	// a lock made for a subset of the architectures, then `build --lockfile` for an architecture it does not cover:
+	// building from a lock installs exactly the packages the lock lists for that architecture — here none
+	var extra []Step
+	if lerr == nil && len(archs) >= 2 {
+		sub := filepath.Join(work, "apko.sub.lock.json")
+		if err := verifapi.LockCmd(context.Background(), sub, archs[:1], []build.Option{build.WithImageConfiguration(ic), build.WithTempDir(ltmp), build.WithSBOMFormats(nil)}); err == nil {
+			other := lkBuild(work, ic, archs[len(archs)-1:], sub, "s")
+			got, verdict := "err", "pass" // refusing to build is an admissible answer
+			if other.Err == nil {
+				n := lkInstalledCount(other)
+				got = fmt.Sprintf("ok installed=%d", n)
+				if n != 0 {
+					verdict = fmt.Sprintf("fail:the lock lists no package for %s but the image built from it has %d installed packages", archs[len(archs)-1], n)
+				}
+			}
+			extra = append(extra, Step{Line: "x.robust\tlock-subset-" + hx(strings.Join(c.World, ",")+"............")[:12], Go: got, Mode: "oracle-go", GoSpec: verdict, NoImpl: true,
+				Desc: fmt.Sprintf("lock for %v only, build --lockfile for %v: ", archs[:1], archs[len(archs)-1:]) + describeCase(rCase{Archs: c.Archs, World: c.World}, 0), Tags: []string{"e2e:lock-subset:" + strings.SplitN(got, " ", 2)[0]}})
+		}
+	}
 	out := "build=" + st["build"] + " lock=" + st["lock"] + " ranges=" + st["ranges"] + " locked=" + st["locked"] + " same=" + st["same"] + " samefs=" + st["samefs"] + " pkgs=" + st["pkgs"]
 	fields := append([]string{"l.e2e", xl(c.World)}, encodeArchs(c.Archs)...)
 	fields = append(fields, out)
@@ -365,8 +384,38 @@ func lkRunE2E(c lkCase) []Step {
 	if len(signed) > 0 {
 		tags = append(tags, "e2e:signed-apks")
 	}
-	return []Step{{Line: strings.Join(fields, "\t"), Go: out, Desc: "apko lock / build --lockfile " + describeCase(rCase{Archs: c.Archs, World: c.World}, 0), Tags: tags, Mode: "verdict",
-		Trivial: st["lock"] != "ok"}}
+	return append([]Step{{Line: strings.Join(fields, "\t"), Go: out, Desc: "apko lock / build --lockfile " + describeCase(rCase{Archs: c.Archs, World: c.World}, 0), Tags: tags, Mode: "verdict",
+		Trivial: st["lock"] != "ok"}}, extra...)
+}
+
+// lkInstalledCount: number of package paragraphs in lib/apk/db/installed over all layers of the layout
+func lkInstalledCount(o E2EOut) int {
+	n := 0
+	for name, b := range o.Files {
+		if !strings.HasPrefix(name, "layout/blobs/") {
+			continue
+		}
+		zr, err := gzip.NewReader(bytes.NewReader(b))
+		if err != nil {
+			continue
+		}
+		tr := tar.NewReader(zr)
+		for {
+			h, err := tr.Next()
+			if err != nil {
+				break
+			}
+			if strings.TrimPrefix(h.Name, "./") == "lib/apk/db/installed" {
+				data, _ := io.ReadAll(tr)
+				for _, l := range strings.Split(string(data), "\n") {
+					if strings.HasPrefix(l, "P:") {
+						n++
+					}
+				}
+			}
+		}
+	}
+	return n
 }
 
 // lkCanonImage: every layer of the layout as a sorted list of (path, type, mode, owner, link, content hash), with the
